@@ -537,11 +537,11 @@ every check precedes the first mutation; a mutation before a late error would sh
 def Tree.add (t : Tree) (pattern : Bytes) (h : Handler) (ms : List Nat) (methods : List Bytes) :
     Except Err Tree := do
   let methods := if methods.isEmpty then anyMethods else methods
-  Tree.checkMethods t pattern methods []
   match ← t.root.checkAmb t.ic pattern false with
   | some true => throw .ambiguous
   | _ => pure ()
   let _ ← split t.ic pattern
+  Tree.checkMethods t pattern methods []
   match splitString pattern with
   | [] => throw (.fault 260)
   | v :: rest =>
